@@ -1,8 +1,8 @@
 (* C02 — The document sent is the document written.
    Property theorems only; proofs live in Proofs/OpStrP.v and Proofs/MultilineP.v. *)
 From Coq Require Import List String Ascii Bool Arith.
-From AC Require Import Base.Strs Base.Sexp Gql.Schema Gql.Doc Gql.Lex Model.Results Model.OpStr Model.Multiline
-     Proofs.OpStrP Proofs.MultilineP Proofs.LexP.
+From AC Require Import Base.Strs Base.Sexp Gql.Schema Gql.Doc Gql.Lex Gql.Block Model.Results Model.OpStr Model.Multiline
+     Proofs.OpStrP Proofs.MultilineP Proofs.LexP Proofs.BlockP.
 Import ListNotations.
 Local Open Scope string_scope.
 Local Open Scope list_scope.
@@ -299,4 +299,48 @@ Example C02_tokens_example :
   Some [TW (L "query"); TW (L "A"); TP "("; TP "$"; TW (L "v"); TP ":"; TW (L "Int"); TP "="; TW (L "3"); TP ")";
         TP "{"; TSpread; TW (L "F"); TW (L "echo"); TP "("; TW (L "s"); TP ":"; TS (L "a # \"" b");
         TW (L "n"); TP ":"; TW (L "-1.5e3"); TP ")"]%char.
+Proof. vm_compute. reflexivity. Qed.
+
+(* ================================================================= F. block strings: the value is preserved *)
+(* Gql/Block.v: BlockStringValue (common indentation of the lines after the first removed, blank lines at
+   both ends dropped).  Moving every non-empty line after the first k blanks to the right keeps it. *)
+Theorem C02_block_value_shift : forall k l0 rest rest',
+  Forall2 (BlockP.padr k) rest rest' ->
+  Block.block_value_lines (l0 :: rest') = Block.block_value_lines (l0 :: rest).
+Proof. exact BlockP.dedent_shift. Qed.
+Print Assumptions C02_block_value_shift.
+
+(* token streams: equal token by token, block-string tokens equal in VALUE *)
+Theorem C02_tokens_preserved_all : forall k lines,
+  Forall (fun l => LexP.no_nl l = true) lines ->
+  BlockP.opt_equiv (Lex.tokens (joined lines)) (Lex.tokens (embedded k lines)).
+Proof.
+  intros k lines H. rewrite embedded_laid_out. exact (BlockP.layout_ignored_up_to_block_values k lines H).
+Qed.
+Print Assumptions C02_tokens_preserved_all.
+
+(* end to end, no hypothesis on the lines but "no line feed inside a line": the literal of the generated
+   method evaluates to a text that lexes like the operation string, block strings with the same values *)
+Theorem C02_embed_same_document : forall lines,
+  lines <> [] -> Forall (fun l => LexP.no_nl l = true) lines ->
+  exists v, client_embed lines = EvOk v client_suffix /\
+            BlockP.opt_equiv (Lex.tokens (joined lines)) (Lex.tokens v).
+Proof.
+  intros lines Hne H.
+  assert (Hn : Forall (fun l => has NL l = false) lines).
+  { eapply Forall_impl; [|exact H]. intros l Hl.
+    apply has_false. intros x Hx E. subst. unfold LexP.no_nl in Hl. rewrite forallb_forall in Hl.
+    specialize (Hl _ Hx). discriminate. }
+  destruct (C02_embed lines Hne Hn) as (v & Ev & [-> | ->]).
+  - exists (joined lines). split; [exact Ev | apply BlockP.opt_equiv_refl].
+  - exists (embedded 12 lines). split; [exact Ev | apply C02_tokens_preserved_all; exact H].
+Qed.
+Print Assumptions C02_embed_same_document.
+
+Example C02_block_value_example :
+  Block.block_value (L "
+    a
+       
+      b
+  ") = [L "a"; L "   "; L "  b"].
 Proof. vm_compute. reflexivity. Qed.
